@@ -965,8 +965,8 @@ class Machine:
             return self.call_closure(fr, args[0], tup.f if isinstance(tup, Agg) else [])
         key = self.prog.resolve(fr.item.crate, callee)
         # calls on a type parameter / Self: dispatch on the run-time type of the receiver
-        md = re.match(r'^<(Self|[A-Z][A-Za-z0-9]*) as (.*?)>::(\w+)$', n)
-        if md and args and (md.group(1) == 'Self' or len(md.group(1)) <= 2 or (fr.generics and md.group(1) in fr.generics)):
+        md = re.match(r'^<(Self|[A-Z][A-Za-z0-9]*|dyn [^<>]+?) as (.*?)>::(\w+)$', n)
+        if md and args and (md.group(1) == 'Self' or md.group(1).startswith('dyn ') or len(md.group(1)) <= 2 or (fr.generics and md.group(1) in fr.generics)):
             k2 = self.dyn_dispatch(fr, callee, md, args)
             if k2 is not None: key = k2
         if key is None:
@@ -989,9 +989,9 @@ class Machine:
                 generics = {'Self': selfty}
             elif fr.generics and 'Self' in fr.generics and '<impl at' not in self.prog.items[key].name:
                 pass
-            tf = re.search(r'::<(.*)>$', callee)
+            tf = _last_turbofish(callee)
             if tf:
-                targs = [a for a in split_top(tf.group(1)) if not a.startswith("'")]
+                targs = [a for a in split_top(tf) if not a.startswith("'")]
                 it = self.prog.items[key]
                 gm = re.match(r'.*?<([A-Z][A-Za-z0-9]*(?:, [A-Z][A-Za-z0-9]*)*)>$', it.name.split('::')[-1]) if False else None
                 names = ['T', 'U', 'V', 'W']
@@ -1086,6 +1086,19 @@ class Machine:
         self._clo[ck] = cands[0]
         return cands[0]
 
+
+def _last_turbofish(callee):
+    """generic arguments of the final path segment: `a::<X>::f::<Y, Z>` -> 'Y, Z'"""
+    if not callee.endswith('>'): return None
+    depth = 0
+    for i in range(len(callee) - 1, -1, -1):
+        c = callee[i]
+        if c == '>' and callee[i - 1] != '-': depth += 1
+        elif c == '<':
+            depth -= 1
+            if depth == 0:
+                return callee[i + 1:-1] if callee[i - 2:i] == '::' else None
+    return None
 
 def p_root(p):
     while p[0] != 'local': p = p[1]
